@@ -125,7 +125,7 @@ func runAnnounce(s Scen) (res result) {
 			res.fail = &failure{"c12-handler-panic", fmt.Sprintf("node %d recovered a panic in an RPC handler: %s", i, ps[0])}
 			return
 		}
-		if k, d := netsim.Audit("c12", t, nd.CM); k != "" {
+		if k, d := netsim.AuditNode("c12", t, t.Nodes[s.Tips[i]], nd); k != "" {
 			res.fail = &failure{k, fmt.Sprintf("node %d: %s", i, d)}
 			return
 		}
